@@ -372,8 +372,12 @@ func (in *Instance) reload(spec *Config) error {
 		in.inh.Mutes(ctx, labels)
 		in.silencer.Mutes(ctx, labels)
 	})
+	var limits dispatch.Limits
+	if in.sim.sc.Opts.GroupLimit {
+		limits = groupLimit(groupLimitOf(in.sim.sc))
+	}
 	newDisp := dispatch.NewDispatcher(in.alerts, routes, pipeline, in.gmarker, timeoutFunc,
-		time.Duration(in.sim.sc.Opts.DispMaint)*time.Second, nil, nopLog, eventrecorder.NopRecorder(), in.dmetrics, tmpl)
+		time.Duration(in.sim.sc.Opts.DispMaint)*time.Second, limits, nopLog, eventrecorder.NopRecorder(), in.dmetrics, tmpl)
 	in.wg.Go(newInh.Run)
 	newInh.WaitForLoading()
 	in.inh = newInh
@@ -637,6 +641,29 @@ func ScenarioKeys(cfg *Config, lss []map[string]string) []NflogEntry {
 		}
 	}
 	return out
+}
+
+type groupLimit int
+
+func (g groupLimit) MaxNumberOfAggregationGroups() int { return int(g) }
+
+// groupLimitOf: distinct (route, group labels) pairs over every configuration of the scenario, plus two.
+func groupLimitOf(sc *Scenario) int {
+	seen := map[string]bool{}
+	cfgs := []*Config{&sc.Config}
+	for i := range sc.Steps {
+		if sc.Steps[i].Op == "reload" && sc.Steps[i].Config != nil {
+			cfgs = append(cfgs, sc.Steps[i].Config)
+		}
+	}
+	for _, cfg := range cfgs {
+		for _, ls := range sc.LabelSets {
+			for _, rt := range cfg.Match(ls) {
+				seen[rt.GroupKey(ls)] = true
+			}
+		}
+	}
+	return len(seen) + 2
 }
 
 var _ = strings.Join
